@@ -618,7 +618,7 @@ func (s *WeatherDataShared) replaceMissingValues(yrz int, noneValue float64) {
 			prevIndex, prevYear = index-1, y
 			nextIndex, nextYear = index+1, y
 			if nextIndex >= T {
-				nextIndex = 1
+				nextIndex = 0
 				nextYear = nextYear + 1
 				if nextYear >= yrz {
 					nextYear = -1
